@@ -207,6 +207,7 @@ def family(ctx, fname, lens, fills, specials, leaves, lams, size, depth, maxseq,
         seed = _h((name, code)) + ctx.seed
         expr = view_expr(name, code, seed)
         ok = compare(ctx, name, code, verdict, expr)
+        ctx.again(compare, ctx, name, code, verdict, expr)
         seen[verdict] += 1
         ctx.replayed += 1
         bad, kinds = input_class(name, code)
@@ -247,6 +248,7 @@ def run(ctx):
         family(ctx, 'wide_a', leaves=['SELF', 'TRANSFER_TOKENS', 'NEUTRAL'], lams=ALL_LAMS, size=4, depth=4, maxseq=4, timeout=1800, **one)
         family(ctx, 'wide_b', leaves=['CREATE_CONTRACT', 'SET_DELEGATE', 'NEUTRAL'], lams=ALL_LAMS, size=4, depth=4, maxseq=4, timeout=1800, **one)
         family(ctx, 'mixed', leaves=ALL_LEAVES, lams=ALL_LAMS, size=3, depth=3, maxseq=3, lens=[31, 32], fills=['upper'], specials=['upper', 'at', 'minus'])
+    ctx.second_pass()
     ctx.exhaustive = True
 
 
